@@ -128,6 +128,7 @@ class C14Oracle(RaftOracle):
         self.check_log_matching = False
         self.probes_sent = {}
         self.probes_got = {}
+        self.flag_since = {}
 
     def on_probe(self, dst, node, msg):
         w = self.w
@@ -146,8 +147,32 @@ class C14Oracle(RaftOracle):
         if sent is not None and sent[1] != dst:
             self.flag('message_misattributed', 'probe %r sent by host %d to host %d was delivered to host %d' % (msg['id'], sent[0], sent[1], dst))
 
+    def _flags(self, a):
+        """What a node reports about a peer's connection and what its transport holds agree (a mismatch that outlives a
+        second and three of the node's ticks is no transient of one callback sequence)."""
+        w = self.w
+        for hb in w.hosts:
+            b = hb.idx
+            if b == a or hb.readonly or hb.addr is None:
+                continue
+            rep, reg = conn_state(w, a, b)
+            k = (a, b)
+            if rep and not reg:
+                st = self.flag_since.get(k)
+                if st is None:
+                    self.flag_since[k] = [w.T, 0]
+                else:
+                    st[1] += 1
+                    if w.T - st[0] > 1.0 and st[1] >= 3:
+                        self.flag('connected_flag_mismatch', 'host %d has reported peer %d connected for %.1f s and %d ticks while its transport holds no connected connection for it (peer %s)' % (
+                            a, b, w.T - st[0], st[1], 'down' if hb.node is None else 'up'), dict(pair=[a, b]))
+            else:
+                self.flag_since.pop(k, None)
+
     def after_event(self, ev, out, touched):
         w = self.w
+        if ev[1] == 'tick' and touched is not None and w.hosts[touched].node is not None and not w.hosts[touched].readonly:
+            self._flags(touched)
         if ev[1] == 'tick' and isinstance(out, str) and out.startswith('exc:') and w.hosts[ev[2]].extra.get('strangers'):
             e = w.tick_exc[-1]
             if 'transport.py' in str(e[3]):
